@@ -1,0 +1,93 @@
+//go:build verif
+
+package pppoe
+
+import (
+	"fmt"
+	"time"
+)
+
+// Verification hooks for the LCP / IPCP / IPv6CP automata (property C11 of /verif).
+// Add-only, compiled only with -tags verif.  They let the harness deliver a restart-timer
+// expiry deterministically (including one that races a Stop, i.e. a stale firing), and read the
+// fields the breadth-first explorer fingerprints.  No behaviour of the package is changed.
+
+// VerifTimeout runs the restart-timer callback exactly as time.AfterFunc would.
+func (lcp *LCPStateMachine) VerifTimeout() { lcp.timeout() }
+
+// VerifTimer returns the currently armed timer instance (nil after stopTimer).
+func (lcp *LCPStateMachine) VerifTimer() *time.Timer {
+	lcp.timerMu.Lock()
+	defer lcp.timerMu.Unlock()
+	return lcp.restartTimer
+}
+
+// VerifMagic returns the magic number a looped-back Configure-Request would carry.
+func (lcp *LCPStateMachine) VerifMagic() uint32 {
+	lcp.mu.RLock()
+	defer lcp.mu.RUnlock()
+	return lcp.config.MagicNumber
+}
+
+// VerifLastID returns the identifier of the most recent Configure-Request.
+func (lcp *LCPStateMachine) VerifLastID() uint8 {
+	lcp.mu.RLock()
+	defer lcp.mu.RUnlock()
+	return lcp.lastIdentifier
+}
+
+// VerifFingerprint summarises the automaton's private state (identifier relative to lastIdentifier).
+func (lcp *LCPStateMachine) VerifFingerprint() string {
+	lcp.mu.RLock()
+	defer lcp.mu.RUnlock()
+	return fmt.Sprintf("%d/%d/%d/%d/%v/%v", lcp.state, lcp.restartCount, lcp.identifier-lcp.lastIdentifier,
+		lcp.negotiated.LocalMRU, lcp.config.PFC, lcp.config.ACFC)
+}
+
+func (ipcp *IPCPStateMachine) VerifTimeout() { ipcp.timeout() }
+
+func (ipcp *IPCPStateMachine) VerifTimer() *time.Timer {
+	ipcp.timerMu.Lock()
+	defer ipcp.timerMu.Unlock()
+	return ipcp.restartTimer
+}
+
+func (ipcp *IPCPStateMachine) VerifLastID() uint8 {
+	ipcp.mu.RLock()
+	defer ipcp.mu.RUnlock()
+	return ipcp.lastIdentifier
+}
+
+func (ipcp *IPCPStateMachine) VerifFingerprint() string {
+	ipcp.mu.RLock()
+	defer ipcp.mu.RUnlock()
+	return fmt.Sprintf("%d/%d/%d/%x", ipcp.state, ipcp.restartCount, ipcp.identifier-ipcp.lastIdentifier,
+		[]byte(ipcp.negotiated.LocalIP.To4()))
+}
+
+func (ipv6cp *IPV6CPStateMachine) VerifTimeout() { ipv6cp.timeout() }
+
+func (ipv6cp *IPV6CPStateMachine) VerifTimer() *time.Timer {
+	ipv6cp.timerMu.Lock()
+	defer ipv6cp.timerMu.Unlock()
+	return ipv6cp.restartTimer
+}
+
+// VerifInterfaceID returns the interface identifier a colliding Configure-Request would carry.
+func (ipv6cp *IPV6CPStateMachine) VerifInterfaceID() uint64 {
+	ipv6cp.mu.RLock()
+	defer ipv6cp.mu.RUnlock()
+	return ipv6cp.config.LocalInterfaceID
+}
+
+func (ipv6cp *IPV6CPStateMachine) VerifLastID() uint8 {
+	ipv6cp.mu.RLock()
+	defer ipv6cp.mu.RUnlock()
+	return ipv6cp.lastIdentifier
+}
+
+func (ipv6cp *IPV6CPStateMachine) VerifFingerprint() string {
+	ipv6cp.mu.RLock()
+	defer ipv6cp.mu.RUnlock()
+	return fmt.Sprintf("%d/%d/%d", ipv6cp.state, ipv6cp.restartCount, ipv6cp.identifier-ipv6cp.lastIdentifier)
+}
